@@ -152,7 +152,7 @@ var profDiff = register(&Profile{
 	Oracles: []Oracle{{Name: "commit-necessity", After: oracleCommitNecessity}, {Name: "staged-report", After: oracleStagedReport}},
 })
 
-var diffWeights = Weights{"dir-at-unstaged-file": 3, "file-at-unstaged-dir": 3, "dir2file": 2, "file2dir": 2, "write-new": 20, "modify": 14, "remove-file": 8, "rmdir": 3, "recreate": 3, "add": 28, "rm": 8, "commit": 18,
+var diffWeights = Weights{"ignore-more": 2, "dir-at-unstaged-file": 3, "file-at-unstaged-dir": 3, "dir2file": 2, "file2dir": 2, "write-new": 20, "modify": 14, "remove-file": 8, "rmdir": 3, "recreate": 3, "add": 28, "rm": 8, "commit": 18,
 	"restore-staged": 6, "reset": 5, "switch-c": 2, "switch": 2, "copydir": 4, "revert": 5, "recreate-unstaged": 3}
 
 // ---------------------------------------------------------------- C13
